@@ -208,7 +208,7 @@ impl Profile for Dispatch {
     }
     fn gen_world(&self, rng: &mut Rng, reg: &Reg) -> WorldPlan {
         let pool: Vec<&Entry> = reg.family("f1").into_iter().filter(|e| e.spec.has_tag("regular")).collect();
-        let n = rng.range(2, 4) as usize;
+        let n = rng.range(2, 4 + crate::extra_contracts()) as usize;
         simple_world(rng, reg, &pool, n, false)
     }
     fn gen_ops(&self, rng: &mut Rng, reg: &Reg, wp: &WorldPlan, base: &RunRecord) -> Vec<Op> {
@@ -220,9 +220,9 @@ impl Profile for Dispatch {
         sg.fail_pm = *rng.pick(&[0, 100, 300]);
         sg.funds_pm = *rng.pick(&[0, 200, 600]);
         sg.typed_pct = *rng.pick(&[0, 50, 100]);
-        sg.max_depth = rng.range(0, 3) as u32;
+        sg.max_depth = rng.range(0, 3 + crate::extra_depth()) as u32;
         let mut tg = TrafficGen { sg, codes: &wp.codes, cross_migrate: rng.chance(1, 2), model: vec![] };
-        let n = rng.range(3, 14);
+        let n = rng.range(3, 14 * crate::scale());
         (0..n).filter_map(|_| tg.op(rng)).collect()
     }
     fn check(&self, plan: &Plan, rec: &RunRecord, reg: &Reg, cells: &mut Cells) -> Vec<Finding> {
@@ -407,7 +407,7 @@ impl Profile for WireFaults {
     }
     fn gen_world(&self, rng: &mut Rng, reg: &Reg) -> WorldPlan {
         let pool: Vec<&Entry> = reg.family("f1");
-        let n = rng.range(1, 3) as usize;
+        let n = rng.range(1, 3 + crate::extra_contracts()) as usize;
         simple_world(rng, reg, &pool, n, false)
     }
     fn gen_ops(&self, rng: &mut Rng, reg: &Reg, wp: &WorldPlan, base: &RunRecord) -> Vec<Op> {
@@ -419,7 +419,7 @@ impl Profile for WireFaults {
         sg.max_depth = 1;
         sg.typed_pct = 0;
         let mut tg = TrafficGen { sg, codes: &wp.codes, cross_migrate: false, model: vec![] };
-        let n = rng.range(3, 10);
+        let n = rng.range(3, 10 * crate::scale());
         let mut ops = vec![];
         for _ in 0..n {
             let Some(op) = tg.op(rng) else { continue };
@@ -506,7 +506,7 @@ impl Profile for Misdeliver {
         for _ in 0..2 {
             pool.extend(ov.iter().copied());
         }
-        let n = rng.range(1, 3) as usize;
+        let n = rng.range(1, 3 + crate::extra_contracts()) as usize;
         simple_world(rng, reg, &pool, n, false)
     }
     fn gen_ops(&self, rng: &mut Rng, reg: &Reg, wp: &WorldPlan, base: &RunRecord) -> Vec<Op> {
@@ -518,7 +518,7 @@ impl Profile for Misdeliver {
         sg.max_depth = 1;
         let mut tg = TrafficGen { sg, codes: &wp.codes, cross_migrate: false, model: vec![] };
         let accounts = &base.accounts;
-        let n = rng.range(3, 10);
+        let n = rng.range(3, 10 * crate::scale());
         let mut ops = vec![];
         for _ in 0..n {
             if rng.chance(1, 4) {
